@@ -6,7 +6,7 @@
    Result codes: (0,n) Ok(n)  (1,0) Ok(())  (2,0) UnexpectedEof  (3,0) WriteZero  (9,0) position set.
    [op_wf] / [st_inv] only exclude arithmetic beyond 2^64 (buffers and vectors longer than the
    address space, cursor positions not fitting u64); every content, length and position is covered. *)
-From VM Require Import Prelude.MachInt Prelude.Outcome Prelude.C1314List Impl.Io Impl.Std Spec.C13 Suite.C13 Proofs.C13.
+From VM Require Import Prelude.MachInt Prelude.Outcome Prelude.C1314List Impl.Io Impl.Std Impl.IoGuest Spec.C13 Suite.C13 Proofs.C13.
 
 (* the model satisfies the executable checker on every well-formed history (any length) *)
 Theorem C13_model_ok : forall c, wf13 c -> ok_C13 c (run_C13 c) = true.
@@ -92,6 +92,22 @@ Theorem C13_msgq_read_exact_pieces : forall md ms b p, Forall payload_ok ms -> b
           st' = msgq_state p [] ms' /\ b' = snd (fst (msgq_exact ms (nlen b) []))).
 Proof. exact msgq_read_exact_pieces_lemma. Qed.
 
+(* stream kinds 11 / 12 of the suite reach the descriptor through VolatileSlice::{read_volatile_from,
+   read_exact_volatile_from, write_volatile_to, write_all_volatile_to}(0, fd, len) on the buffer's own
+   slice (Impl/IoGuest.v vs_* : offset / subslice / get_slice, retry_eintr!, then the ReadVolatile /
+   WriteVolatile call): for the descriptor oracles of the suite this is the same computation as the
+   direct call that [vm_step] models *)
+Theorem C13_slice_route_same : forall k b st f, is_fd k = true -> buf_ok b ->
+  vs_read_volatile_from (Datatypes.S f) (read_volatile_raw_fd (os_read_of k)) (win b) 0 st (arena b) (nlen b)
+    = read_volatile_raw_fd (os_read_of k) st (arena b) (win b)
+  /\ vs_read_exact_volatile_from (fuel_of b) (read_volatile_raw_fd (os_read_of k)) (win b) 0 st (arena b) (nlen b)
+    = read_exact_volatile (fuel_of b) (read_volatile_raw_fd (os_read_of k)) st (arena b) (win b)
+  /\ vs_write_volatile_to (Datatypes.S f) (write_volatile_raw_fd (os_write_of k)) (win b) 0 st (arena b) (nlen b)
+    = write_volatile_raw_fd (os_write_of k) st (arena b) (win b)
+  /\ vs_write_all_volatile_to (fuel_of b) (write_volatile_raw_fd (os_write_of k)) (win b) 0 st (arena b) (nlen b)
+    = write_all_volatile (fuel_of b) (write_volatile_raw_fd (os_write_of k)) st (arena b) (win b).
+Proof. exact slice_route_same_lemma. Qed.
+
 (* non-vacuity: a cursor past the end, then repositioned, read short, then an exact read that fails *)
 Example C13_nonvacuous :
   let c := {| c_mode := Debug; c_kind := KCurR;
@@ -148,3 +164,4 @@ Print Assumptions C13_never_beyond_buffer.
 Print Assumptions C13_default_read_exact_eq_std.
 Print Assumptions C13_default_write_all_eq_std.
 Print Assumptions C13_msgq_read_exact_pieces.
+Print Assumptions C13_slice_route_same.
